@@ -44,6 +44,41 @@ def flag_word(hs, T, L, S, O, P):
     return v
 
 
+def avp_order_check(chk, fx, a, config):
+    # AVPs in vector order: in every loop iteration AVP::write is applied to element t of self.avps, where t is the
+    # ascending loop counter (slice iterator position or index variable)
+    eng2 = new_engine(chk, fx)
+    seen = {"iters": [], "recv": []}
+
+    def on_call(frame, st, bb, func, args):
+        if (func.get("resolved") or func)["key"] == a.avp_write["key"] and frame.key == a.ctrl_write["key"] and not eng2.mute:
+            r = args[0]
+            seen["recv"].append((st.ntrace, r.cell, r.path[-1] if isinstance(r, VRef) and r.path else None))
+
+    def on_loop(frame, head, H, res, havoc, lid):
+        if eng2.mute or frame.key != a.ctrl_write["key"]:
+            return
+        for b in res["back"]:
+            evs = b.events()[H.ntrace:]
+            rn = [e for e in evs if e[0] == "range_next"]
+            calls = [r for r in seen["recv"] if r[0] >= H.ntrace]
+            seen["iters"].append((rn[-1][1] if rn else None, rn[-1][2].lin if rn else None, calls[-1] if calls else None, b))
+    eng2.hooks["loop"] = on_loop
+    eng2.hooks["call"] = on_call
+    eng2.analyse(a.ctrl_write["key"], name="ControlMessage::write(order)[%s]" % config)
+    ok = bool(seen["iters"])
+    for back, item, call, b in seen["iters"]:
+        if back is not False or item is None or call is None or call[1] != ("obj", "self.*.avps") or call[2] is None:
+            ok = False
+            continue
+        idx = call[2][1] if call[2][0] == "ei" else Lin.const(call[2][1])
+        if not eng2.ent(b, c_eq(idx, item)):
+            ok = False
+    chk.oblig(ok, "avp-order | ControlMessage::write", "AVPs are not emitted by one forward pass over self.avps",
+              {"rule": "AVPs in vector order", "iterations": [(x[0], repr(x[1]), repr(x[2])) for x in seen["iters"]][:3]},
+              {"obligation": "each loop iteration AVP::writes element t of self.avps, t the ascending loop counter"})
+
+
 def run_config(chk, config):
     fx = chk.facts(config)
     a = Anchors(chk, fx)
@@ -107,38 +142,7 @@ def run_config(chk, config):
                   {"obligation": "control header layout and flag word", "layout": c})
         # AVPs in vector order: one forward slice iterator over self.avps feeds AVP::write
         its = [e for e in s.events() if e[0] == "iter_next"]
-    # AVPs in vector order: in every loop iteration AVP::write is applied to element t of self.avps, where t is the
-    # ascending loop counter (slice iterator position or index variable)
-    eng2 = new_engine(chk, fx)
-    seen = {"iters": [], "recv": []}
-
-    def on_call(frame, st, bb, func, args):
-        if (func.get("resolved") or func)["key"] == a.avp_write["key"] and frame.key == a.ctrl_write["key"] and not eng2.mute:
-            r = args[0]
-            seen["recv"].append((st.ntrace, r.cell, r.path[-1] if isinstance(r, VRef) and r.path else None))
-
-    def on_loop(frame, head, H, res, havoc, lid):
-        if eng2.mute or frame.key != a.ctrl_write["key"]:
-            return
-        for b in res["back"]:
-            evs = b.events()[H.ntrace:]
-            rn = [e for e in evs if e[0] == "range_next"]
-            calls = [r for r in seen["recv"] if r[0] >= H.ntrace]
-            seen["iters"].append((rn[-1][1] if rn else None, rn[-1][2].lin if rn else None, calls[-1] if calls else None, b))
-    eng2.hooks["loop"] = on_loop
-    eng2.hooks["call"] = on_call
-    eng2.analyse(a.ctrl_write["key"], name="ControlMessage::write(order)[%s]" % config)
-    ok = bool(seen["iters"])
-    for back, item, call, b in seen["iters"]:
-        if back is not False or item is None or call is None or call[1] != ("obj", "self.*.avps") or call[2] is None:
-            ok = False
-            continue
-        idx = call[2][1] if call[2][0] == "ei" else Lin.const(call[2][1])
-        if not eng2.ent(b, c_eq(idx, item)):
-            ok = False
-    chk.oblig(ok, "avp-order | ControlMessage::write", "AVPs are not emitted by one forward pass over self.avps",
-              {"rule": "AVPs in vector order", "iterations": [(x[0], repr(x[1]), repr(x[2])) for x in seen["iters"]][:3]},
-              {"obligation": "each loop iteration AVP::writes element t of self.avps, t the ascending loop counter"})
+    avp_order_check(chk, fx, a, config)
     # ---- 4. data message flag word per configuration (field order is checked against the decoder in C04 and here against RFC order)
     engd, dpaths = writer_paths(chk, fx, a, "Data")
     chk.require_anchor(len(dpaths) >= 16, "16 data configurations (found %d)" % len(dpaths))
